@@ -163,7 +163,7 @@ func processRegexForCompare(ruleId string, chainOffset uint8, regex string, ctxt
 	logger.Info().Msgf("Processing %s, chain offset %d", ruleId, chainOffset)
 
 	rulePrefix := ruleId[:3]
-	matches, err := filepath.Glob(fmt.Sprintf("%s/*-%s-*", ctxt.RootContext().RulesDir(), rulePrefix))
+	matches, err := filepath.Glob(fmt.Sprintf("%s/*-%s-*", globEscape(ctxt.RootContext().RulesDir()), rulePrefix))
 	if err != nil {
 		logger.Error().Err(err).Msgf("Failed to find rule file for rule id %s", ruleId)
 		return err
